@@ -4,7 +4,8 @@
    repaired (append truncates from the appended index, snapshot keeps the tail).
    None of these operations does arithmetic on u64, indexes a slice or unwraps,
    so there is no Panic outcome.  Executable; no proofs here. *)
-From Coq Require Import List NArith Bool.
+From Coq Require Import List NArith ZArith Bool.
+From Coq Require Uint63.
 From Verif Require Import CheckLib.
 Import ListNotations.
 Open Scope N_scope.
@@ -114,16 +115,18 @@ Fixpoint trace (s : state) (ops : list op) : list obs :=
 
 (* -- exhaustive blocks: both sides enumerate every sequence of [depth] further
    operations over the same alphabet in the same order and fold the observation
-   after the last operation of each sequence into one 64-bit number -- *)
-Definition mask64 : N := 18446744073709551615.
-Definition mix (h x : N) : N := N.land (N.shiftl h 5 + h + x + 1) mask64.
+   after the last operation of each sequence into one 63-bit number (machine
+   integers, arithmetic modulo 2^63; used only here, never in a theorem) -- *)
+Definition hint := Uint63.int.
+Definition mix (h : hint) (x : N) : hint :=
+  Uint63.add (Uint63.add (Uint63.add (Uint63.lsl h 5%uint63) h) (Uint63.of_Z (Z.of_N x))) 1%uint63.
 
-Definition enc_entry (h : N) (e : entry) : N :=
+Definition enc_entry (h : hint) (e : entry) : hint :=
   fold_left mix (edata e) (mix (mix (mix h 7) (eidx e)) (eterm e)).
-Definition enc_oentry (h : N) (o : option entry) : N :=
+Definition enc_oentry (h : hint) (o : option entry) : hint :=
   match o with None => mix h 3 | Some e => enc_entry h e end.
-Definition enc_list (h : N) (l : list entry) : N := mix (fold_left enc_entry l (mix h 11)) 13.
-Definition enc_obs (h : N) (o : obs) : N :=
+Definition enc_list (h : hint) (l : list entry) : hint := mix (fold_left enc_entry l (mix h 11)) 13.
+Definition enc_obs (h : hint) (o : obs) : hint :=
   let '(g, r, q, w, l, s) := o in
   let h := fold_left enc_oentry g h in
   let h := enc_list (enc_list (enc_list h r) q) w in
@@ -141,7 +144,7 @@ Definition alphabet (imax tmax : nat) (pos : N) : list op :=
   ++ map DeleteFrom (seqN 1 imax)
   ++ flat_map (fun i => map (fun t => Snapshot i t) (seqN 1 tmax)) (seqN 1 imax).
 
-Fixpoint block_hash (imax tmax : nat) (depth : nat) (pos : N) (s : state) (h : N) : N :=
+Fixpoint block_hash (imax tmax : nat) (depth : nat) (pos : N) (s : state) (h : hint) : hint :=
   match depth with
   | O => enc_obs h (observe s)
   | S d => fold_left (fun h o => block_hash imax tmax d (pos + 1) (step s o) h)
@@ -156,5 +159,6 @@ Definition check_case (c : case) : bool :=
   match c with
   | Seq ops observed => list_eqb obs_eqb (observe init :: trace init ops) observed
   | Block prefix imax tmax depth hash =>
-      block_hash imax tmax depth (N.of_nat (length prefix)) (run prefix) 0 =? hash
+      Z.eqb (Uint63.to_Z (block_hash imax tmax depth (N.of_nat (length prefix)) (run prefix) 0%uint63))
+            (Z.of_N hash)
   end.
